@@ -252,6 +252,12 @@ def handle (op : String) (inp : Json) : Json :=
   | "refresh" => verdict (judgeRefresh inp)
   | "tamper" => verdict (judgeTamper inp)
   | "derive" => verdict (judgeDerive inp)
+  | "keykept" =>
+    -- a refresh with a deviating peer: the honest party refuses, or its new key material carries the SAME group key
+    verdict ((if !(jget inp "stage").isNull && jstr inp "stage" != "refresh with a shifted sender share"
+                then ["an honest preparation step failed: " ++ jstr inp "stage"] else [])
+      ++ (if !(jget inp "new_pub").isNull && jstr inp "new_pub" != jstr inp "old_pub"
+                then ["the refresh changed the group public key held by the honest party"] else []))
   | _ => jobj [("error", "unknown op")]
 
 end Mps.Drv.Sessions
